@@ -660,4 +660,62 @@ theorem asis_offset (R : Rnd) (start ipd k : ℤ) (h1 : 1 ≤ ipd) (hk0 : 0 ≤ 
   ring
 
 
+/-! ## the base time -/
+open Mkts.Time in
+/-- `IndexToTimeDepr` is exact for timeframes of whole seconds dividing a day: the float
+    computation `float64(index-1)*86400/float64(ipd)` is an integer below `2^53` at every step -/
+theorem indexToTimeDeprOffset_exact (R : Rnd) (index ipd tfs : ℤ) (h1 : 1 ≤ ipd) (hday : ipd * tfs = 86400)
+    (hi1 : 1 ≤ index) (hi2 : index ≤ 366 * ipd) :
+    indexToTimeDeprOffset R.r index ipd = (index - 1) * (tfs * 1000000000) := by
+  have htfs : 1 ≤ tfs := by nlinarith
+  have hipd2 : ipd ≤ 86400 := by nlinarith
+  have hn0 : 0 ≤ index - 1 := by omega
+  have hn1 : index - 1 ≤ 31622400 := by nlinarith
+  have hm1 : (index - 1) * tfs ≤ 31622400 := by nlinarith
+  have hm0 : 0 ≤ (index - 1) * tfs := by positivity
+  unfold indexToTimeDeprOffset
+  rw [R.int (index - 1) (by rw [abs_of_nonneg hn0]; norm_num; omega)]
+  have e1 : ((index - 1 : ℤ) : ℚ) * 86400 = (((index - 1) * 86400 : ℤ) : ℚ) := by push_cast; ring
+  rw [e1, R.int ((index - 1) * 86400) (by rw [abs_of_nonneg (by omega)]; norm_num; omega),
+    R.int ipd (by rw [abs_of_nonneg (by omega)]; norm_num; omega)]
+  have e2 : (((index - 1) * 86400 : ℤ) : ℚ) / (ipd : ℚ) = (((index - 1) * tfs : ℤ) : ℚ) := by
+    have hq : (ipd : ℚ) ≠ 0 := by
+      have : (1:ℚ) ≤ ipd := by exact_mod_cast h1
+      linarith
+    rw [div_eq_iff hq, ← hday]; push_cast; ring
+  rw [e2, R.int ((index - 1) * tfs) (by rw [abs_of_nonneg hm0]; norm_num; omega)]
+  have hq0 : (0:ℚ) ≤ (((index - 1) * tfs : ℤ) : ℚ) := by exact_mod_cast hm0
+  have hq1 : (((index - 1) * tfs : ℤ) : ℚ) < 9223372036854775808 := by
+    have : (index - 1) * tfs < 9223372036854775808 := by omega
+    exact_mod_cast this
+  rw [toInt64_of_range hq0 hq1, Int.floor_intCast]
+  unfold wrap64 two63 two64
+  have : (index - 1) * tfs * 1000000000 ≤ 31622400 * 1000000000 := by nlinarith
+  have : 0 ≤ (index - 1) * tfs * 1000000000 := by positivity
+  rw [Int.emod_eq_of_lt (by omega) (by omega)]
+  ring
+
+open Mkts.Time in
+/-- `GetIntervalTicks32Bit(ts, index, ipd)` is the encoder applied to the offset of `ts` from the
+    start of slot `index` (sub-day timeframes, UTC; the slot start is `IndexToTime` of C30) -/
+theorem getIntervalTicks32Bit_eq (R : Rnd) (ts index ipd tfs : ℤ) (h1 : 1 ≤ ipd) (hday : ipd * tfs = 86400)
+    (htf : tfs * 1000000000 ≠ dayNs) (hi1 : 1 ≤ index) (hi2 : index ≤ 366 * ipd)
+    (hd0 : 0 ≤ ts - indexToTime utc index (tfs * 1000000000) (localYear utc ts))
+    (hd1 : ts - indexToTime utc index (tfs * 1000000000) (localYear utc ts) < tfs * 1000000000) :
+    getIntervalTicks32Bit R.r ts index ipd =
+      encode R.r ipd (ts - indexToTime utc index (tfs * 1000000000) (localYear utc ts)) := by
+  have hbase : indexToTimeDepr R.r index ipd (localYear utc ts)
+      = indexToTime utc index (tfs * 1000000000) (localYear utc ts) := by
+    unfold indexToTimeDepr indexToTime
+    rw [indexToTimeDeprOffset_exact R index ipd tfs h1 hday hi1 hi2]
+    simp only [beq_iff_eq, htf, if_false]
+    ring
+  unfold getIntervalTicks32Bit
+  simp only [hbase]
+  have htfs2 : tfs ≤ 86400 := by nlinarith
+  congr 1
+  unfold sat64 two63
+  rw [if_neg (by omega), if_neg (by omega)]
+
+
 end Mkts.Ticks
